@@ -9,6 +9,19 @@ from .expr import is_sv, _ix, rd
 MAX_UNROLL = 8
 
 
+def _consts_of(t, acc=None, seen=None):
+    acc = [] if acc is None else acc
+    seen = set() if seen is None else seen
+    if t.get_id() in seen:
+        return acc
+    seen.add(t.get_id())
+    if z3.is_const(t) and t.decl().kind() == z3.Z3_OP_UNINTERPRETED:
+        acc.append(t)
+    for c in t.children():
+        _consts_of(c, acc, seen)
+    return acc
+
+
 class StmtMixin:
     def exec_block(self, stmts, st):
         for s in stmts:
@@ -538,6 +551,33 @@ class StmtMixin:
 
     def check_invariants(self, n, invs, st, kind):
         self.inv_env(n, st)
+        self.ctx.split_terms = self.split_candidates(n, st) if kind == "inv-keep" else []
+        try:
+            self._check_invariants(n, invs, st, kind)
+        finally:
+            self.ctx.split_terms = []
+
+    def split_candidates(self, n, st):
+        """integer terms on which a skolemised range invariant is worth case-splitting at a back edge: the index of the element
+        just processed (counter before the increment and every integer local that is a function of it)"""
+        kv = st.env.get("_k%d" % n)
+        if kv is None or not z3.is_expr(kv.t):
+            return []
+        prev = z3.simplify(kv.t - 1)
+        out, seen = [prev], {prev.get_id()}
+        ks = [c for c in _consts_of(prev)]
+        for name, v in st.env.items():
+            if name.startswith("_") or not hasattr(v, "ty") or getattr(v.ty, "kind", None) != "int" or not z3.is_expr(v.t):
+                continue
+            if z3.is_int_value(v.t) or not any(c.get_id() in {x.get_id() for x in ks} for c in _consts_of(v.t)):
+                continue
+            t = z3.simplify(v.t)
+            if t.get_id() not in seen:
+                seen.add(t.get_id())
+                out.append(t)
+        return (out[1:] + out[:1])[:3]      # integer locals first, the bare counter last
+
+    def _check_invariants(self, n, invs, st, kind):
         for i, text in enumerate(invs):
             g = self.truthy(self.spec_text(text, st), st)
             self.ctx.oblige(st, "%s#%d" % (kind, n), g, line=None, text=text, tag="c%d" % i)
